@@ -467,8 +467,21 @@ func propOne(c Case) error {
 	}
 	wantKind, wantPts := exact.SegSeg(P[0], P[1], P[2], P[3])
 	before := c.P
+	// the caller's own four coordinates, kept over all variants: overwritten in place
+	// with the next variant's end points and handed over again (a loop over the segments
+	// of two lines does this with one Coord per role)
+	var bufs [4]geom.Coord
+	for k := range bufs {
+		bufs[k] = make(geom.Coord, 0, 8)
+	}
 	for vi, idx := range variants {
 		in := [4]geom.Coord{coi(c, idx[0]), coi(c, idx[1]), coi(c, idx[2]), coi(c, idx[3])}
+		for k := range bufs {
+			bufs[k] = append(bufs[k][:0], in[k]...)
+		}
+		if rb := lineintersector.LineIntersectsLine(lineintersector.RobustLineIntersector{}, bufs[0], bufs[1], bufs[2], bufs[3]); int(rb.Type()) != wantKind {
+			return fmt.Errorf("robust, variant %d %v of %v, the end points written into the four coordinates the caller used for the variant before: type %v, exact %v", vi, idx, show(c), rb.Type(), lineintersection.Type(wantKind))
+		}
 		// end points that coincide are, in every other variant, one and the same slice
 		// (what ls.Coord(i) passed twice is): the answer is that of the values
 		if vi%2 == 1 {
